@@ -10,6 +10,9 @@ property_level("C16", "other", "chunk independence is a whole-history property o
                "itself argued - and the forwarding clause of NetSource.handle_messages; the Beast and Skysense framers "
                "(look-ahead over the whole buffer) are covered by bounded native enumeration only")
 
+# sampled streams per bounded harness and tier (each sample is a multi-frame stream under several segmentations)
+BOUND = {"quick": 20000, "thorough": 100000}
+
 TCP = repo("pyModeS.extra.tcpclient")
 SRC = repo("pyModeS.streamer.source")
 T = "pyModeS.extra.tcpclient.TcpClient."
@@ -65,7 +68,7 @@ class Stream(Domain):
         return []
 
 
-@harness("C16", inputs={"stream": Stream(), "cuts": Stream()}, kind="bounded", sampler=sample_raw,
+@harness("C16", inputs={"stream": Stream(), "cuts": Stream()}, kind="bounded", bound=BOUND, sampler=sample_raw,
          functions=[T + "read_raw_buffer"],
          note="AVR framing: random streams of 1-4 frames, every segmentation into up to 4 pieces (sampled)")
 def raw_chunk_independent(stream, cuts):
@@ -77,7 +80,7 @@ def sample_raw_exhaustive_cuts(rng, fixed):
     return {"stream": raw_stream(rng)}
 
 
-@harness("C16", inputs={"stream": Stream()}, kind="bounded", sampler=sample_raw_exhaustive_cuts,
+@harness("C16", inputs={"stream": Stream()}, kind="bounded", bound={"quick": 3000, "thorough": 20000}, sampler=sample_raw_exhaustive_cuts,
          functions=[T + "read_raw_buffer"], note="every single and double cut position of the sampled stream")
 def raw_all_single_and_double_cuts(stream):
     want = framing_spec.parse_raw(stream)
@@ -136,7 +139,7 @@ def region_beast_cut_at_escape_byte(stream, cuts, escapes):
     return False
 
 
-@harness("C16", inputs={"stream": Stream(), "cuts": Stream(), "escapes": Choice(True, False)}, kind="bounded",
+@harness("C16", inputs={"stream": Stream(), "cuts": Stream(), "escapes": Choice(True, False)}, kind="bounded", bound=BOUND,
          sampler=sample_beast, functions=[T + "read_beast_buffer"], regions=["region_beast_cut_at_escape_byte"],
          note="Beast framing: random streams of 1-3 frames (0x1A anywhere in timestamp, level or message when "
               "escapes=True), up to 4 pieces")
@@ -164,7 +167,7 @@ def sample_sky(rng, fixed):
     return {"stream": s, "cuts": sorted(rng.randint(0, len(s)) for _ in range(k))}
 
 
-@harness("C16", inputs={"stream": Stream(), "cuts": Stream()}, kind="bounded", sampler=sample_sky,
+@harness("C16", inputs={"stream": Stream(), "cuts": Stream()}, kind="bounded", bound=BOUND, sampler=sample_sky,
          functions=[T + "read_skysense_buffer"], note="Skysense framing: random streams, up to 4 pieces")
 def skysense_chunk_independent(stream, cuts):
     assert feed("skysense", stream, cuts) == framing_spec.parse_skysense(stream), \
